@@ -54,13 +54,18 @@ def instances(tier):
             if tier == "quick" and (naz, w) == (2, 3) and dist == "log-normal":
                 continue
             out.append({"name": f"state_az{naz}_w{w}_{dist}", "func": "run_state", "kwargs": {"naz": naz, "w": w, "nf": nf, "dist": dist}})
+    # azimuth values that coincide modulo 180 (both end points 0 and 180 are accepted by the class) or are repeated
+    for azs in ([0.0, 180.0], [45.0, 45.0], [0.0, 60.0, 180.0]):
+        if tier == "quick" and len(azs) == 3:
+            continue
+        out.append({"name": f"state_azimuths_{'_'.join(str(int(a)) for a in azs)}", "func": "run_state", "kwargs": {"naz": len(azs), "w": 2, "nf": 2, "dist": "lognormal", "azimuths": azs}})
     for dist in ("normal", "lognormal"):
         out.append({"name": f"perm_{dist}", "func": "run_perm", "kwargs": {"dist": dist}})
         out.append({"name": f"single_azimuth_{dist}", "func": "run_single", "kwargs": {"dist": dist}})
     return out
 
 
-def make_state(ctx, naz, w, nf, tag=""):
+def make_state(ctx, naz, w, nf, tag="", azimuths=None):
     HT = L()["hvsr_traditional"].HvsrTraditional
     HA = L()["hvsr_azimuthal"].HvsrAzimuthal
     frq = np.arange(1.0, nf + 1)
@@ -87,14 +92,14 @@ def make_state(ctx, naz, w, nf, tag=""):
         hs.append(h)
         status.append(st)
     az = HA.__new__(HA)
-    az.hvsrs, az.azimuths, az.meta = hs, [float(10 * k) for k in range(naz)], {}
+    az.hvsrs, az.azimuths, az.meta = hs, (list(azimuths) if azimuths is not None else [float(10 * k) for k in range(naz)]), {}
     return az, status
 
 
 def wit(az, status, dist, what):
     def w(m):
         val = concretiser(m)
-        return {"kind": "azstate", "dist": dist, "what": what, "status": status,
+        return {"kind": "azstate", "dist": dist, "what": what, "status": status, "azimuths": [float(a) for a in az.azimuths],
                 "frequency": [float(f) for f in az.frequency],
                 "amplitude": [[[val(x) for x in row] for row in h.amplitude] for h in az.hvsrs],
                 "peak_frq": [[val(x) for x in h._main_peak_frq] for h in az.hvsrs],
@@ -232,9 +237,9 @@ def check(rep, ctx, az, status, dist, label=""):
     return res
 
 
-def run_state(rep, tier, naz, w, nf, dist):
+def run_state(rep, tier, naz, w, nf, dist, azimuths=None):
     def run(ctx):
-        return make_state(ctx, naz, w, nf)
+        return make_state(ctx, naz, w, nf, azimuths=azimuths)
 
     for ctx, (az, status) in rep.explore(run, max_paths=1000):
         if any(sum(1 for s in st if s == "accepted") < 1 for st in status):
@@ -316,7 +321,7 @@ def _concrete(spec):
     for amp, pf, pa, st in zip(spec["amplitude"], spec["peak_frq"], spec["peak_amp"], spec["status"]):
         h = hvsrpy.HvsrTraditional(frq, np.array([[_num(x) for x in row] for row in amp]))
         hs.append(h)
-    az = hvsrpy.HvsrAzimuthal(hs, [10.0 * k for k in range(len(hs))])
+    az = hvsrpy.HvsrAzimuthal(hs, spec.get("azimuths") or [10.0 * k for k in range(len(hs))])
     for h, pf, pa, st in zip(az.hvsrs, spec["peak_frq"], spec["peak_amp"], spec["status"]):
         h._main_peak_frq = np.array([_num(x) for x in pf])
         h._main_peak_amp = np.array([_num(x) for x in pa])
